@@ -201,7 +201,9 @@ class Ref:
             m = getattr(v, '__html__', None)
             if m is not None:
                 return m()
-            v = str(v)
+            # neither text, number nor __html__: offered to the translation function (settings in force)
+            conv = self.T(v) if self.translate is not None else v
+            v = str(v) if conv is v else conv
         elif hasattr(v, '__html__'):
             return v.__html__()
         return esc_text(v, quote) if escape else v
@@ -294,6 +296,8 @@ class Ref:
             if node.get('i18n_translate') == '' and v is not None:
                 v = self.T(v, None, v)          # the fallback is the element's content: offered for translation
             omit = node.get('omit') == ''
+            if 'omit' in node and not omit:
+                omit = bool(self.ev(node['omit'], scope))      # a computed omit-tag decides for the fallback too
             if not omit:
                 out.append('<' + node['tag'])
                 targeted = [a.lower() for a, _ in node.get('attributes', []) if a]
